@@ -406,9 +406,9 @@ struct SV {
 };
 
 // ------------------------------------------------------------------ inplace_vector
-enum ICode : std::uint32_t { I_TRY_PUSH_CREF, I_TRY_PUSH_RREF, I_TRY_EMPLACE, I_UNCHECKED_PUSH_CREF, I_UNCHECKED_PUSH_RREF, I_UNCHECKED_EMPLACE, I_POP, I_CLEAR, I_COPY_CTOR_MUTATE, I_MOVE_CTOR, I_OBSERVE, I_WRITE, I_NCODES };
+enum ICode : std::uint32_t { I_TRY_PUSH_CREF, I_TRY_PUSH_RREF, I_TRY_EMPLACE, I_UNCHECKED_PUSH_CREF, I_UNCHECKED_PUSH_RREF, I_UNCHECKED_EMPLACE, I_POP, I_CLEAR, I_COPY_CTOR_MUTATE, I_MOVE_CTOR, I_OBSERVE, I_WRITE, I_FILL, I_NCODES };
 char const* const icode_names[] = {"try_push_back(const&)", "try_push_back(&&)", "try_emplace_back", "unchecked_push_back(const&)", "unchecked_push_back(&&)", "unchecked_emplace_back", "pop_back", "clear",
-    "copy-ctor+mutate copy", "move-ctor", "observe", "write through operator[]"};
+    "copy-ctor+mutate copy", "move-ctor", "observe", "write through operator[]", "fill to capacity (try_emplace_back until full)"};
 
 template <typename T, std::size_t N>
 struct IV {
@@ -526,6 +526,15 @@ struct IV {
                 case I_CLEAR: {
                     x.clear();
                     mx.clear();
+                    break;
+                }
+                case I_FILL: {
+                    // histories are short: without this op the large capacities (255 / 256: the size-type boundary) are never full
+                    while (mx.size() < N && err.empty()) {
+                        T* p = x.try_emplace_back(val);
+                        mx.push_back(val);
+                        if (p != x.data() + (mx.size() - 1)) { err = "try_emplace_back (fill to capacity) did not return the new last element"; }
+                    }
                     break;
                 }
                 case I_COPY_CTOR_MUTATE: {
